@@ -22,4 +22,84 @@ theorem rx_go (s : String) : rx Rx.goToken s = Grammar.goToken s.toList := by
 theorem unsupported_nil (n : String) (v : Val) : unsupported n v = [] ↔ v.isPrimitive = true := by
   cases v <;> simp [unsupported, Val.isPrimitive]
 
+/-! ### accepted ⇒ getters pairwise distinct and individually well-formed -/
+
+/-- the getters of the non-todo services, in processing order -/
+def liveGetters (l : List (String × Service)) : List String :=
+  l.filterMap fun ns => if ns.2.todo.getD false then none else ns.2.getter
+
+theorem fold_errs_grow (l : List (String × Service)) (acc : Errs × List (String × String))
+    (h : (l.foldl servicesStep acc).1 = []) : acc.1 = [] := by
+  induction l generalizing acc with
+  | nil => exact h
+  | cons ns l ih =>
+    have := ih _ h
+    unfold servicesStep at this
+    simp only at this
+    split at this
+    · exact (List.append_eq_nil_iff.mp this).1
+    · exact (List.append_eq_nil_iff.mp this).1
+
+theorem fold_unique (l : List (String × Service)) (acc : Errs × List (String × String))
+    (h : (l.foldl servicesStep acc).1 = []) :
+    (liveGetters l).Nodup ∧ (∀ g ∈ liveGetters l, acc.2.lookup g = none) ∧
+    (∀ ns ∈ l, ns.2.todo.getD false = false → serviceAttrs ns.2 = []) := by
+  induction l generalizing acc with
+  | nil => simp [liveGetters]
+  | cons ns l ih =>
+    have ih' := ih _ h
+    have hstep := fold_errs_grow l _ h
+    unfold liveGetters at *
+    by_cases htodo : ns.2.todo.getD false = true
+    · have hs : servicesStep acc ns = (acc.1 ++ Errs.pfx (q ns.1 ++ ": ") (if rx Rx.yamlToken ns.1 then [] else ["invalid name"]), acc.2) := by
+        simp [servicesStep, htodo]
+      rw [hs] at ih'
+      simp only [List.filterMap_cons, htodo, ↓reduceIte]
+      refine ⟨ih'.1, ih'.2.1, ?_⟩
+      intro ms hm hnt
+      rcases List.mem_cons.mp hm with rfl | hm
+      · rw [htodo] at hnt; cases hnt
+      · exact ih'.2.2 ms hm hnt
+    · have htodo' : ns.2.todo.getD false = false := by simpa using htodo
+      have hs : servicesStep acc ns =
+          (acc.1 ++ Errs.pfx (q ns.1 ++ ": ") ((if rx Rx.yamlToken ns.1 then [] else ["invalid name"]) ++ serviceAttrs ns.2 ++ (dupCheck acc.2 ns.1 ns.2.getter).1),
+           (dupCheck acc.2 ns.1 ns.2.getter).2) := by
+        simp [servicesStep, htodo']
+      rw [hs] at ih' hstep
+      simp only at hstep
+      have hparts := (pfx_nil _ _).mp (List.append_eq_nil_iff.mp hstep).2
+      have hattrs : serviceAttrs ns.2 = [] := (List.append_eq_nil_iff.mp (List.append_eq_nil_iff.mp hparts).1).2
+      have hdup : (dupCheck acc.2 ns.1 ns.2.getter).1 = [] := (List.append_eq_nil_iff.mp hparts).2
+      have hattrsAll : ∀ ms ∈ ns :: l, ms.2.todo.getD false = false → serviceAttrs ms.2 = [] := by
+        intro ms hm hnt
+        rcases List.mem_cons.mp hm with rfl | hm
+        · exact hattrs
+        · exact ih'.2.2 ms hm hnt
+      simp only [List.filterMap_cons, htodo', Bool.false_eq_true, ↓reduceIte]
+      cases hg : ns.2.getter with
+      | none =>
+        rw [hg] at ih'
+        simp only [dupCheck] at ih'
+        exact ⟨ih'.1, ih'.2.1, hattrsAll⟩
+      | some g =>
+        rw [hg] at ih' hdup
+        simp only [dupCheck] at ih' hdup
+        cases hl : acc.2.lookup g with
+        | some prev => rw [hl] at hdup; simp at hdup
+        | none =>
+          rw [hl] at ih'
+          simp only at ih'
+          refine ⟨List.nodup_cons.mpr ⟨?_, ih'.1⟩, ?_, hattrsAll⟩
+          · intro hmem
+            have := ih'.2.1 g hmem
+            simp [List.lookup_cons] at this
+          · intro g' hg'
+            rcases List.mem_cons.mp hg' with rfl | hg'
+            · exact hl
+            · have := ih'.2.1 g' hg'
+              rw [List.lookup_cons] at this
+              split at this
+              · cases this
+              · exact this
+
 end GM.C11
